@@ -16,3 +16,23 @@ Print Assumptions C07_compile_total.
 Example C07_dangling_prefix_is_eof :
   Front.compile [45%N] = CParseErr Pratt.Eof /\ Front.compile [110;111;116]%N = CParseErr Pratt.Eof /\ Front.compile [49;32;45]%N = CParseErr Pratt.Eof.
 Proof. vm_compute. auto. Qed.
+
+(* recursion depth - what the stack holds - is bounded by the nesting tokens of the input, not by its length. compile_d is compile with a second budget, decremented exactly where the Rust parser
+   makes a nested call (prefix handler -> parse_precedence, binary -> parse_precedence, call / array -> expression) and not where it iterates; it answers None when the budget is exhausted.
+   A budget of 10 + 12 * (number of '(' '[' 'not' '-' tokens) is never exhausted, and then compile_d IS compile - every token list, of any length *)
+Require Import PrattDepth.
+Theorem C07_recursion_depth_bounded : forall (ts : list (Pratt.token value (list N))) d,
+  (10 + 12 * Pratt.cnt value (list N) ts <= d)%nat -> compile_d value (list N) d ts = Some (Pratt.compile value (list N) ts).
+Proof. exact (depth_bounded_by_nesting_tokens value (list N)). Qed.
+Theorem C07_flat_chain_constant_depth : forall (ts : list (Pratt.token value (list N))), Pratt.cnt value (list N) ts = 0%nat -> compile_d value (list N) 10 ts = Some (Pratt.compile value (list N) ts).
+Proof. exact (flat_input_constant_depth value (list N)). Qed.
+Theorem C07_budgeted_parser_is_the_parser : forall (ts : list (Pratt.token value (list N))) d r, compile_d value (list N) d ts = Some r -> r = Pratt.compile value (list N) ts.
+Proof. intros ts d r. apply compile_d_agrees. Qed.
+(* non-vacuity: the budget is really consumed by nesting - three parentheses do not fit into two levels, one 'not' does not fit into none - and not by length *)
+Example C07_depth_examples :
+  compile_d value (list N) 2 [Pratt.LParen; Pratt.LParen; Pratt.LParen; Pratt.TId [120%N]; Pratt.RParen; Pratt.RParen; Pratt.RParen] = None /\
+  compile_d value (list N) 0 [Pratt.TNot; Pratt.TId [120%N]] = None /\
+  (exists e, compile_d value (list N) 3 [Pratt.LParen; Pratt.LParen; Pratt.LParen; Pratt.TId [120%N]; Pratt.RParen; Pratt.RParen; Pratt.RParen] = Some (Pratt.Ok e)) /\
+  (exists e, compile_d value (list N) 1 (Pratt.TId [120%N] :: flat_map (fun _ => [Pratt.TBin Pratt.Plus; Pratt.TId [120%N]]) (seq 0 40)) = Some (Pratt.Ok e)).
+Proof. repeat split; try reflexivity; eexists; vm_compute; reflexivity. Qed.
+Print Assumptions C07_recursion_depth_bounded.
